@@ -4,10 +4,13 @@
 after skip()/stop(), under onmatch): the is_valid bit logged after every line must equal the run machine's (RunTrace), and
 ValidityMonotone is checked by TLC as an action property on every validated trace.  Error-policy 'fail' is C05's.
 (2) Aggregation: named-paths groups with failing members, all six run methods: ArchiveTrace requires the member manifests'
-valid, the run manifest's all_valid and ResultsManager.is_valid(name) to be the conjunction of the members' verdicts."""
+valid, the run manifest's all_valid and ResultsManager.is_valid(name) to be the conjunction of the members' verdicts.
+(3) fail_all() in groups: generated groups whose members raise the cross-path signals (fail_all, stop_all, skip_all, advance_all) are run
+with all six methods and validated by the joint machine spec/GroupRun.tla; C04 judges the members' validity per line, their final
+verdicts and the run manifest's all_valid (the other fields of the joint run are reported in the evidence, not judged here)."""
 import json
 
-from checks import c09, runfam, mcrun
+from checks import c09, runfam, mcrun, jointrun
 from lib import common, scratch
 from lib.tlc import MachineryError
 
@@ -43,7 +46,8 @@ def aggregation(rep, tier):
 def main(tier):
     n = 700 if tier == "quick" else 12000
     return runfam.run(PID, tier, groups=("core", "control", "validity"), judged=JUDGED, ncases=n, seed_salt=400,
-                      pre=lambda rep: (aggregation(rep, tier), mcrun.run_pool(rep, tier, {"valid"}, PID)))
+                      pre=lambda rep: (aggregation(rep, tier), mcrun.run_pool(rep, tier, {"valid"}, PID),
+                                       jointrun.run(rep, tier, {"valid", "final_valid", "all_valid"}, PID, n=80 if tier == "quick" else 2500)))
 
 
 def replay(path):
